@@ -25,7 +25,7 @@ MODEL_LABELS = {
     "Compare.stat", "Compare.getFunc", "Touch.OpenFile", "Touch.lock", "Touch.lockfile", "Touch.Chtimes",
     "WriteBlock.IsFull", "WriteBlock.MkdirAll", "WriteBlock.TempFile", "WriteBlock.lock", "WriteBlock.Copy",
     "WriteBlock.Write#1", "WriteBlock.Write#2", "WriteBlock.Write#3", "WriteBlock.tmpfile.Close",
-    "WriteBlock.Chtimes", "WriteBlock.Rename", "WriteBlock.Remove",
+    "WriteBlock.Chtimes", "WriteBlock.OpenFile", "WriteBlock.lockfile", "WriteBlock.Rename", "WriteBlock.Remove",
 }
 # methods on the PUT path (the request's own and the helpers they call)
 PUT_METHODS = ("Compare", "Touch", "WriteBlock", "stat", "getFunc", "lock", "unlock", "lockfile", "unlockfile",
